@@ -359,6 +359,7 @@ def gen(rng, knobs):
     script = [["barrier"]] + [["send", json.dumps(["EVENT", e])] for e in events]
     obs = [["send", json.dumps(["REQ", "o", {"since": 1}])], ["barrier"]]
     return {"backend": backend, "pipeline": pipe, "cfg": cfg, "lists": lists,
+            "lists_shape": rng.choice(["both", "both", "both", "allow-only", "deny-only", "deny-only-empty-allow"]),
             "clients": [{"script": obs}, {"script": script}]}
 
 
@@ -434,12 +435,17 @@ def run(case, sim):
     uses_lists = any(p.endswith("is_pubkey_allowed") for p in case["pipeline"])
     lists = case["lists"]
     svc = evgen.SERVICE
+    shape = case.get("lists_shape", "both")
     if uses_lists:
-        cfg["dynamic_lists"] = {
-            "check_interval": 7200,
-            "allow_list_queries": [{"kinds": [3], "authors": [svc.pub]}],
-            "deny_list_queries": [{"kinds": [1984], "authors": [svc.pub]}],
-        }
+        cfg["dynamic_lists"] = {"check_interval": 7200}
+        # a deployment may use only one of the two lists (an open relay with a block list; a closed one without)
+        if shape in ("both", "allow-only"):
+            cfg["dynamic_lists"]["allow_list_queries"] = [{"kinds": [3], "authors": [svc.pub]}]
+        if shape in ("both", "deny-only"):
+            cfg["dynamic_lists"]["deny_list_queries"] = [{"kinds": [1984], "authors": [svc.pub]}]
+        if shape == "deny-only-empty-allow":
+            cfg["dynamic_lists"]["allow_list_queries"] = None
+            cfg["dynamic_lists"]["deny_list_queries"] = [{"kinds": [1984], "authors": [svc.pub]}]
     w = relay.RelayWorld(sim, backend, case["clients"], cfg=cfg, storage_opts={"validators": names})
     list_state = {}
 
@@ -486,13 +492,16 @@ def run(case, sim):
                 want_allow.add(t[1].lower())
         if want_allow:
             want_allow |= {svc.pub} | set(cfg["pubkey_whitelist"])
+        if shape in ("deny-only", "deny-only-empty-allow"):
+            want_allow = set()
+        want_deny = set(lists["deny"]) if shape != "allow-only" else set()
         if allowed != want_allow:
             viol.append({"cls": "allow-list-content", "sig": "allow-list-content|" + backend,
                          "detail": {"extra": sorted(x[:8] for x in allowed - want_allow),
                                     "missing": sorted(x[:8] for x in want_allow - allowed)}})
-        if denied != set(lists["deny"]):
-            viol.append({"cls": "deny-list-content", "sig": "deny-list-content|" + backend,
-                         "detail": {"got": sorted(x[:8] for x in denied), "want": sorted(x[:8] for x in lists["deny"])}})
+        if denied != want_deny:
+            viol.append({"cls": "deny-list-content", "sig": "deny-list-content|%s|%s" % (backend, shape),
+                         "detail": {"got": sorted(x[:8] for x in denied), "want": sorted(x[:8] for x in want_deny)}})
     pipe_names = [p.split(".")[-1] for p in case["pipeline"]]
     # transcript facts
     sub = w.clients[1]
